@@ -27,27 +27,28 @@ def ExecSpecC (exec : Nat → St → Res Fetched) : Prop :=
 
 theorem evalM_specC {read : Nat → St → Res Fetched} (hR : ReadSpecF P env read)
     (hRC : ReadSpecC P env read) :
-    ∀ (e : Expr) (s : St) (v : Nat) (hs : List Nat) (s' : St), InvF P env s → InvC P env s →
-      (∀ c ∈ callees env e, TopCalls P env s c) →
+    ∀ (e : Expr), e.noGate = true → ∀ (s : St) (v : Nat) (hs : List Nat) (s' : St),
+      InvF P env s → InvC P env s →
+      (∀ c ∈ callees env ρ0 e, TopCalls P env s c) →
       evalM env read e s = .ok (v, hs, s') →
       InvC P env s' ∧ (∀ k ∈ hs, isHead s'.prov k = true) ∧
-      (∀ c ∈ callees env e, c ∉ s.stack → ∀ k ∈ s.stack, Via P env s.stack c k → k ∈ hs) := by
+      (∀ c ∈ callees env ρ0 e, c ∉ s.stack → ∀ k ∈ s.stack, Via P env s.stack c k → k ∈ hs) := by
   intro e
   induction e with
   | const c =>
-    intro s v hs s' _ hC _ h
+    intro _ s v hs s' _ hC _ h
     simp only [evalM] at h
     injection h with h; injection h with h1 h; injection h with h2 h3
     subst h1; subst h2; subst h3
     exact ⟨hC, (fun k hk => nomatch hk), (fun c hc => by simp [callees] at hc)⟩
   | input i =>
-    intro s v hs s' _ hC _ h
+    intro _ s v hs s' _ hC _ h
     simp only [evalM] at h
     injection h with h; injection h with h1 h; injection h with h2 h3
     subst h1; subst h2; subst h3
     exact ⟨hC, (fun k hk => nomatch hk), (fun c hc => by simp [callees] at hc)⟩
   | call j =>
-    intro s v hs s' hI hC hT h
+    intro _ s v hs s' hI hC hT h
     simp only [evalM] at h
     cases hr : read j s with
     | error e => rw [hr] at h; cases h
@@ -62,7 +63,10 @@ theorem evalM_specC {read : Nat → St → Res Fetched} (hR : ReadSpecF P env re
       simp only [callees, List.mem_singleton] at hc
       subst hc; exact hcomp hcs
   | union a b iha ihb =>
-    intro s v hs s' hI hC hT h
+    intro hng s v hs s' hI hC hT h
+    simp only [Expr.noGate, Bool.and_eq_true] at hng
+    have iha := iha hng.1
+    have ihb := ihb hng.2
     simp only [evalM] at h
     cases ha : evalM env read a s with
     | error e => rw [ha] at h; cases h
@@ -77,15 +81,15 @@ theorem evalM_specC {read : Nat → St → Res Fetched} (hR : ReadSpecF P env re
         rw [hb] at h
         injection h with h; injection h with e1 h; injection h with e2 e3
         subst e1; subst e2; subst e3
-        have hTa : ∀ c ∈ callees env a, TopCalls P env s c :=
+        have hTa : ∀ c ∈ callees env ρ0 a, TopCalls P env s c :=
           fun c hc => hT c (by simp [callees, hc])
-        obtain ⟨hI1, hst1, _, _, _, _, _⟩ := evalM_specF P env hR a s x h1 s1 hI hTa ha
+        obtain ⟨hI1, hst1, _, _, _, _, _⟩ := evalM_specF P env hR a hng.1 s x h1 s1 hI hTa ha
         obtain ⟨hC1, hh1, hcomp1⟩ := iha s x h1 s1 hI hC hTa ha
-        have hT2 : ∀ c ∈ callees env b, TopCalls P env s1 c := by
+        have hT2 : ∀ c ∈ callees env ρ0 b, TopCalls P env s1 c := by
           intro c hc t ht
           rw [hst1] at ht
           exact hT c (by simp [callees, hc]) t ht
-        obtain ⟨_, _, hE2, _, _, _, _⟩ := evalM_specF P env hR b s1 y h2 s2 hI1 hT2 hb
+        obtain ⟨_, _, hE2, _, _, _, _⟩ := evalM_specF P env hR b hng.2 s1 y h2 s2 hI1 hT2 hb
         obtain ⟨hC2, hh2, hcomp2⟩ := ihb s1 y h2 s2 hI1 hC1 hT2 hb
         refine ⟨hC2, ?_, ?_⟩
         · intro k hk
@@ -100,7 +104,10 @@ theorem evalM_specC {read : Nat → St → Res Fetched} (hR : ReadSpecF P env re
           · rw [← hst1] at hcs hk hv
             exact List.mem_append_right _ (hcomp2 c hc hcs k hk hv)
   | inter a b iha ihb =>
-    intro s v hs s' hI hC hT h
+    intro hng s v hs s' hI hC hT h
+    simp only [Expr.noGate, Bool.and_eq_true] at hng
+    have iha := iha hng.1
+    have ihb := ihb hng.2
     simp only [evalM] at h
     cases ha : evalM env read a s with
     | error e => rw [ha] at h; cases h
@@ -115,15 +122,15 @@ theorem evalM_specC {read : Nat → St → Res Fetched} (hR : ReadSpecF P env re
         rw [hb] at h
         injection h with h; injection h with e1 h; injection h with e2 e3
         subst e1; subst e2; subst e3
-        have hTa : ∀ c ∈ callees env a, TopCalls P env s c :=
+        have hTa : ∀ c ∈ callees env ρ0 a, TopCalls P env s c :=
           fun c hc => hT c (by simp [callees, hc])
-        obtain ⟨hI1, hst1, _, _, _, _, _⟩ := evalM_specF P env hR a s x h1 s1 hI hTa ha
+        obtain ⟨hI1, hst1, _, _, _, _, _⟩ := evalM_specF P env hR a hng.1 s x h1 s1 hI hTa ha
         obtain ⟨hC1, hh1, hcomp1⟩ := iha s x h1 s1 hI hC hTa ha
-        have hT2 : ∀ c ∈ callees env b, TopCalls P env s1 c := by
+        have hT2 : ∀ c ∈ callees env ρ0 b, TopCalls P env s1 c := by
           intro c hc t ht
           rw [hst1] at ht
           exact hT c (by simp [callees, hc]) t ht
-        obtain ⟨_, _, hE2, _, _, _, _⟩ := evalM_specF P env hR b s1 y h2 s2 hI1 hT2 hb
+        obtain ⟨_, _, hE2, _, _, _, _⟩ := evalM_specF P env hR b hng.2 s1 y h2 s2 hI1 hT2 hb
         obtain ⟨hC2, hh2, hcomp2⟩ := ihb s1 y h2 s2 hI1 hC1 hT2 hb
         refine ⟨hC2, ?_, ?_⟩
         · intro k hk
@@ -138,7 +145,10 @@ theorem evalM_specC {read : Nat → St → Res Fetched} (hR : ReadSpecF P env re
           · rw [← hst1] at hcs hk hv
             exact List.mem_append_right _ (hcomp2 c hc hcs k hk hv)
   | ite i a b iha ihb =>
-    intro s v hs s' hI hC hT h
+    intro hng s v hs s' hI hC hT h
+    simp only [Expr.noGate, Bool.and_eq_true] at hng
+    have iha := iha hng.1
+    have ihb := ihb hng.2
     simp only [evalM] at h
     simp only [callees] at hT ⊢
     split at h
@@ -148,6 +158,7 @@ theorem evalM_specC {read : Nat → St → Res Fetched} (hR : ReadSpecF P env re
     · rename_i hc
       simp only [if_neg hc] at hT ⊢
       exact ihb s v hs s' hI hC hT h
+  | gate g a _ _ => intro hng; simp [Expr.noGate] at hng
 
 theorem fetchColdCycle_specC (c : Nat) (s : St) (v : Nat) (hs : List Nat) (s' : St)
     (hC : InvC P env s) (h : fetchColdCycle P c s = .ok (v, hs, s')) :
